@@ -7,9 +7,9 @@ Open Scope Z_scope.
 
 Ltac sp :=
   cbn [permits closed queue spermits sclosed squeue vec size avail tasks out loose dead gone
-       next_oid log
+       next_oid log timed
        set_permits set_closed set_queue set_spermits set_sclosed set_squeue set_vec set_size
-       set_avail set_tasks set_out set_loose set_dead set_gone set_next_oid set_log
+       set_avail set_tasks set_out set_loose set_dead set_gone set_next_oid set_log set_timed
        setpc emit] in *.
 
 Ltac splits := repeat match goal with |- _ /\ _ => split end.
